@@ -107,6 +107,9 @@ M = [
  ("RData::type_code reports NULL for every opaque record", D + 'rdata/macros.rs', "RData::NULL(type_code, _) => TYPE::from(*type_code),", "RData::NULL(_, _) => TYPE::NULL,", 'untied:rdata.enum_arms'),
  ("MessageWriter::flush does nothing", D + 'packet.rs', "        self.inner.flush()\n", "        Ok(())\n", 'untied:packet.message_writer'),
  ("MessageWriter::seek forgets the start", D + 'packet.rs', "std::io::SeekFrom::Start(self.start + offset)", "std::io::SeekFrom::Start(offset)", 'untied:packet.message_writer'),
+ ("MAILA written with the code of MX", D + 'mod.rs', "            QTYPE::MAILA => 254,", "            QTYPE::MAILA => TYPE::MX.into(),", 'untied:codes.question_codes_out'),
+ ("MAILB and MAILA codes swapped on the way out", D + 'mod.rs', "            QTYPE::MAILB => 253,\n            QTYPE::MAILA => 254,", "            QTYPE::MAILB => 254,\n            QTYPE::MAILA => 253,", 'fail:question_codes_out'),
+ ("QCLASS::ANY written as 254", D + 'mod.rs', "            QCLASS::ANY => 255,", "            QCLASS::ANY => 254,", 'fail:question_codes_out'),
  ("mdns refresh in millis", 'simple-mdns/src/resource_record_manager.rs', 'added + Duration::from_secs(ttl / 2)', 'added + Duration::from_millis(ttl / 2)', 'untied:mdns.expiration'),
 ]
 
